@@ -40,7 +40,7 @@ def setup():
     arrays.patch_module(v, scipy=stubs.scipy_facade())
 
 
-def case_saturation(ctx, nc, ns, win, per_channel, sym_fs, as_list=False):
+def case_saturation(ctx, nc, ns, win, per_channel, sym_fs, as_list=False, positional=False):
     import ibldsp.voltage as v
     import scipy.signal
     d = [[ctx.real(f"d{c}_{t}", -10, 10) for t in range(ns)] for c in range(nc)]
@@ -59,7 +59,11 @@ def case_saturation(ctx, nc, ns, win, per_channel, sym_fs, as_list=False):
     s = ctx.real("v_per_sec")
     ctx.assume(s > 0)
     fs = ctx.real("fs", 1, 10 ** 6) if sym_fs else 30000
-    flags, mute = ctx.call("saturation", v.saturation, data, maxv, v_per_sec=s, fs=fs, proportion=p, mute_window_samples=win)
+    if positional:
+        # the documented order of the arguments: data, max_voltage, v_per_sec, fs, proportion, mute_window_samples
+        flags, mute = ctx.call("saturation", v.saturation, data, maxv, s, fs, p, win)
+    else:
+        flags, mute = ctx.call("saturation", v.saturation, data, maxv, v_per_sec=s, fs=fs, proportion=p, mute_window_samples=win)
     if per_channel:
         again, _ = v.saturation(data, maxv, v_per_sec=s, fs=fs, proportion=p, mute_window_samples=win)
         ctx.oblige("second_identical_call_gives_the_same_flags", tuple(again.shape) == tuple(flags.shape) and all_([core.eq(again[t], flags[t]) for t in range(ns)]) if tuple(again.shape) == tuple(flags.shape) else False)
@@ -221,6 +225,7 @@ def cases(tier):
     cs.append(Case("sat_2x3_w3_symfs", "case_saturation", {"nc": 2, "ns": 3, "win": 3, "per_channel": False, "sym_fs": True}, timeout_s=900))
     # degenerate but legal sizes: one channel, one sample, a hard mute (window of one sample), an even window
     cs.append(Case("proportion_ieee_nc400", "case_proportion_ieee", {"max_nc": 400}, timeout_s=2400))
+    cs.append(Case("sat_2x3_w3_positional_arguments", "case_saturation", {"nc": 2, "ns": 3, "win": 3, "per_channel": False, "sym_fs": True, "positional": True}, timeout_s=900))
     cs.append(Case("sat_2x3_w3_range_list", "case_saturation", {"nc": 2, "ns": 3, "win": 3, "per_channel": True, "sym_fs": False, "as_list": True}, timeout_s=900))
     cs.append(Case("sat_1x3_w3_scalar", "case_saturation", {"nc": 1, "ns": 3, "win": 3, "per_channel": False, "sym_fs": False}, timeout_s=900))
     cs.append(Case("sat_1x3_w3_perch", "case_saturation", {"nc": 1, "ns": 3, "win": 3, "per_channel": True, "sym_fs": False}, timeout_s=900))
@@ -271,7 +276,7 @@ p, s, fs, win = F({str(m['proportion'])!r}), F({str(m['v_per_sec'])!r}), F({fs!r
 if {bool(params.get('as_list'))}: V = list(V)
 V0 = np.copy(V)
 try:
-    flags, mute = v.saturation(d.copy(), V, v_per_sec=s, fs=fs, proportion=p, mute_window_samples=win)
+    flags, mute = v.saturation(d.copy(), V, s, fs, p, win) if {bool(params.get('positional'))} else v.saturation(d.copy(), V, v_per_sec=s, fs=fs, proportion=p, mute_window_samples=win)
 except Exception as e:
     reproduced(f'saturation raised {{type(e).__name__}}: {{e}} on {{d.shape[0]}} channels x {{d.shape[1]}} samples with a mute window of {{win}} samples')
 nc, ns = d.shape
